@@ -412,19 +412,21 @@ def reasm_mc_module(quick):
     """Small abstract wire messages over bytes {a & = NL 1} with the two-byte marker '&='."""
     a, amp, eq, nl = 97, 38, 61, 10
     if quick:
-        bodies = [[a], [amp], [a, a], [amp, a], [a, amp, a], [eq, amp]]
+        bodies = [[a], [amp], [amp, a], [a, amp, a], [eq, amp]]
         pays = [None, [], [nl], [a], [nl, nl], [amp, eq], [a, nl], [amp, eq, 49]]
     else:
-        bodies = [[a], [amp], [eq], [a, a], [amp, a], [a, amp], [eq, amp], [a, amp, a], [amp, amp, a], [eq, amp, a]]
-        pays = [None, [], [nl], [a], [amp], [nl, nl], [amp, eq], [a, nl], [nl, a], [eq, nl], [amp, eq, 49], [amp, eq, 48, nl]]
+        bodies = [[a], [amp], [a, a], [amp, a], [a, amp], [eq, amp], [a, amp, a], [eq, amp, a]]
+        pays = [None, [], [nl], [a], [nl, nl], [amp, eq], [a, nl], [nl, a], [amp, eq, 49], [amp, eq, 48, nl]]
     msgs = []
     for b in bodies:
         for p in pays:
             msgs.append({'id': len(msgs) + 1, 'line': b, 'hasPay': p is not None, 'pay': p or []})
-    three = [m for m in msgs if len(m['line']) <= 2 and len(m['pay']) <= 2][:10 if quick else 24]
+    three = [m for m in msgs if len(m['line']) <= 2 and len(m['pay']) <= 2][:10 if quick else 18]
     t = table()
     real = [{'id': i + 1, 'line': list(t.line[i]), 'hasPay': TABLE[i]['pay'] is not None, 'pay': list(TABLE[i]['pay'] or b'')}
-            for i in range(len(TABLE)) if len(t.wire[i]) <= (24 if quick else 60) and i != JSON_MARKER_MSG]
+            for i in range(len(TABLE)) if len(t.wire[i]) <= (24 if quick else 40) and i != JSON_MARKER_MSG]
+    gen = [{'id': i + 1, 'line': list(t.line[i]), 'hasPay': TABLE[i]['pay'] is not None, 'pay': list(TABLE[i]['pay'] or b'')}
+           for i in range(len(TABLE)) if len(t.wire[i]) <= 90 and i != JSON_MARKER_MSG]
     txt = """----------------------------- MODULE BcpMC -----------------------------
 EXTENDS Bcp
 MCMarker == <<38, 61>>
@@ -432,11 +434,12 @@ RealMarker == %s
 MCMsgs2 == {%s}
 MCMsgs3 == {%s}
 RealMsgs == {%s}
+GenMsgs == {%s}
 NoDev == {}
 DevModeLost == {"ModeLostAcrossReads"}
 =============================================================================
 """ % (to_tla(REAL_MARKER), ',\n  '.join(to_tla(m) for m in msgs), ',\n  '.join(to_tla(m) for m in three),
-       ',\n  '.join(to_tla(m) for m in real))
+       ',\n  '.join(to_tla(m) for m in real), ',\n  '.join(to_tla(m) for m in gen))
     return txt, len(msgs), len(three), len(real)
 
 
@@ -535,7 +538,7 @@ def run_reassembly(ctx, wd):
         n = sum(len(t.wire[i]) for i in msgs)
         if n > 14:
             raise tlc.TLCError('exhaustive stream %s has %d bytes' % (msgs, n))
-        which = [rcvs[si % 3]] if ctx.quick else rcvs
+        which = [rcvs[si % 3]] if ctx.quick else ('asyncio', rcvs[1 + si % 2])
         for rk in which:
             for s in all_chunkings(msgs, n):
                 jobs.append({'rcv': rk, 'sched': s, 'src': 'exhaustive'})
@@ -549,7 +552,7 @@ def run_reassembly(ctx, wd):
             nsamp += 1
     # TLC-simulated interleavings of Send and Deliver over the real-byte message table
     with open(wd + '/Gen.cfg', 'w') as f:
-        f.write(REASM_CFG % ('RealMsgs', 'RealMarker', 5, 'NoDev', ''))
+        f.write(REASM_CFG % ('GenMsgs', 'RealMarker', 5, 'NoDev', ''))
     behs, _ = tlc.simulate(wd, 'BcpMC', 'Gen.cfg', num=150 if ctx.quick else 1500, depth=40, seed=ctx.seed)
     for bi, b in enumerate(behs):
         s = []
@@ -564,7 +567,7 @@ def run_reassembly(ctx, wd):
     # lists of strings with separators) — a few chunkings on every receiver
     for rk in rcvs:
         n = len(t.wire[JSON_MARKER_MSG]) + len(t.wire[0])
-        for cuts in ([], [5], list(range(1, n))):
+        for cuts in ([5],) if ctx.quick else ([], [5], list(range(1, n))):
             jobs.append({'rcv': rk, 'sched': chunk_sched([JSON_MARKER_MSG, 0], cuts, n), 'src': 'json-marker'})
     ctx.log('reassembly: %d executions (%d exhaustive chunkings, %d sampled, %d simulated)' % (len(jobs), nexh, nsamp, len(behs)))
     traces = harness.pmap(exec_reasm, jobs, chunk=64)
@@ -572,6 +575,14 @@ def run_reassembly(ctx, wd):
         f.write(REASM_TRACE_CFG)
     v = tlc.validate_traces(wd, 'BcpTrace', 'Trace.cfg', traces, workers=8, batch=6000)
     ctx.add_trace_verdict('BcpTrace', v, len(traces))
+    # rejections the batch run had no budget to locate: locate them (bounded) so that no failure class stays unnamed
+    undi = [i for i, info in sorted(v.rejected.items()) if info.get('line') is None][:24]
+    for b0 in range(0, len(undi), 8):
+        ids = undi[b0:b0 + 8]
+        v2 = tlc.validate_traces(wd, 'BcpTrace', 'Trace.cfg', [traces[i] for i in ids], workers=2, batch=8)
+        for k, i in enumerate(ids):
+            if k in v2.rejected:
+                v.rejected[i] = v2.rejected[k]
     ctx.coverage['bounds']['reassembly executions'] = {
         'exhaustive_chunkings': nexh, 'exhaustive_streams': [[len(t.wire[i]) for i in m] for m in ex],
         'sampled_chunkings': nsamp, 'tlc_simulated': len(behs), 'receivers': list(rcvs)}
@@ -659,13 +670,17 @@ def shape_key(shape):
     return repr((shape['cmd'], [(p['key'], p['kind'], p['sub'], tuple(p['toks'])) for p in shape['params']]))
 
 
-def instantiate(shape, seed):
+def instantiate(shape, seed, with_pieces=False, pin=None):
     rng = random.Random(zlib.crc32(('%d|%s' % (seed, shape_key(shape))).encode()))
     cmd = rng.choice(CMDKINDS[shape['cmd']])
     kw = {}
+    pieces = []
     for i, p in enumerate(shape['params']):
         key = 'json' if p['key'] == 'json' else rng.choice(KEYS[i % len(KEYS)]) + ('' if i < len(KEYS) else str(i))
-        s = ''.join(rng.choice(TOK[t]) for t in p['toks'])
+        pieces.append([rng.choice(TOK[t]) for t in p['toks']])
+        if pin and i < len(pin) and pin[i] is not None:
+            pieces[-1] = list(pin[i])          # suspicion cases of DESIGN section 5: fixed concrete text
+        s = ''.join(pieces[-1])
         if p['kind'] == 'str':
             v = s
         elif p['kind'] == 'nest':
@@ -673,6 +688,8 @@ def instantiate(shape, seed):
         else:
             v = rng.choice(SCALAR[(p['kind'], p['sub'])])
         kw[key] = v
+    if with_pieces:
+        return cmd, kw, pieces
     return cmd, kw
 
 
@@ -701,15 +718,15 @@ def roundtrip(cmd, kw):
 
 
 def codec_case(job):
-    shape, seed = job
-    cmd, kw = instantiate(shape, seed)
+    shape, seed, pin = job
+    cmd, kw = instantiate(shape, seed, pin=pin)
     res = roundtrip(cmd, kw)
     ev = []
     for p in shape['params']:
         ev.append({'op': 'param', 'key': p['key'], 'kind': p['kind'], 'sub': p['sub']})
         ev += [{'op': 'tok', 't': t} for t in p['toks']]
     ev.append(dict({'op': 'check'}, **{k: v for k, v in res.items() if not k.startswith('_')}))
-    return {'cfg': {'cmd': shape['cmd']}, 'ev': ev, '_shape': shape, '_seed': seed, '_orig': repr((cmd, kw)),
+    return {'cfg': {'cmd': shape['cmd']}, 'ev': ev, '_shape': shape, '_seed': seed, '_pin': pin, '_orig': repr((cmd, kw)),
             '_enc': res.get('_enc'), '_dec': res.get('_dec'), '_err': res.get('_err')}
 
 
@@ -721,7 +738,12 @@ def _is_prefix_lookalike(s):
     return bool(_PREFIX.match(s)) or s.lower() in ('bool:true', 'bool:false') or s == 'NoneType:'
 
 
-def param_class(p, key, value):
+def _roundtrips(cmd, kw):
+    res = roundtrip(cmd, kw)
+    return (not res['raised']) and res['oneline'] and res['cmd'] and res['keys'] and all(x['val'] and x['typ'] for x in res['params'])
+
+
+def param_class(p, key, value, pieces=()):
     """Failure class of ONE parameter run alone through the real codec; None if it round-trips."""
     res = roundtrip('x', {key: value})
     pr = res['params'][0]
@@ -737,7 +759,10 @@ def param_class(p, key, value):
             return 'str-type-prefix-lookalike' + ('-raises' if res['raised'] else '')
         if _PCTESC.search(value) and not res['raised'] and res['oneline']:
             return 'str-percent-escape-lookalike'
-        return 'str:%s:%s' % ('-'.join(sorted(set(p['toks']))) or 'empty', how)
+        # an unforeseen class: name it after the tokens that already fail on their own, else after the token set
+        alone = sorted({t for t, txt in zip(p['toks'], pieces)
+                        if not (_is_prefix_lookalike(txt) or _PCTESC.search(txt)) and not _roundtrips('x', {'k': txt})})
+        return 'str:%s:%s' % ('-'.join(alone or sorted(set(p['toks']))) or 'empty', how)
     if key == 'json':
         return 'param-named-json'
     return '%s-%s:%s' % (p['kind'], p['sub'] or 'x', how)
@@ -746,10 +771,10 @@ def param_class(p, key, value):
 def codec_signatures(tr):
     """Name the failure class(es) of a rejected case by isolating each parameter (naming only; the verdict was TLC's)."""
     shape = tr['_shape']
-    cmd, kw = instantiate(shape, tr['_seed'])
+    cmd, kw, pieces = instantiate(shape, tr['_seed'], with_pieces=True, pin=tr['_pin'])
     classes = []
-    for p, (k, v) in zip(shape['params'], kw.items()):
-        c = param_class(p, k, v)
+    for p, (k, v), pc in zip(shape['params'], kw.items(), pieces):
+        c = param_class(p, k, v, pc)
         if c:
             classes.append((c, k, v))
     if classes:
@@ -880,7 +905,11 @@ MCScalars == {%s}
             shapes.setdefault(shape_key(s), s)
     order = sorted(shapes)
     reps = 1 if ctx.quick else 2
-    jobs = [(shapes[k], ctx.seed * 100 + rep) for k in order for rep in range(reps)]
+    jobs = [(shapes[k], ctx.seed * 100 + rep, None) for k in order for rep in range(reps)]
+    # the suspicion inputs of DESIGN section 5 (#13) with their exact text, independent of the seed
+    pinned = [('HEX', '%41'), ('PINT', 'int:5'), ('PBOOL', 'bool:true'), ('PNONE', 'NoneType:'), ('PFLOAT', 'float:1e+16'),
+              ('PINTBAD', 'int:x'), ('HEX', '%25'), ('PBOOL', 'bool:false')]
+    jobs = [({'cmd': 'plain', 'params': [P('str', toks=[t])]}, ctx.seed, [[txt]]) for t, txt in pinned] + jobs
     ctx.log('codec: %d shapes (%d enumerated exhaustively), %d cases' % (len(shapes), nenum, len(jobs)))
     traces = harness.pmap(codec_case, jobs, chunk=256, item_timeout=20)
     with open(wd + '/CodecTrace.cfg', 'w') as f:
@@ -903,23 +932,30 @@ MCScalars == {%s}
             raise tlc.TLCError('codec trace rejected although every logged observation holds: %s' % tr['ev'])
         for sig, k, val in codec_signatures(tr):
             nviol[sig] = nviol.get(sig, 0) + 1
-            found.append((len(tr['_shape']['params']), sum(len(p['toks']) for p in tr['_shape']['params']), i, sig, k, val))
-    emitted = {}
-    for _, _, i, sig, k, val in sorted(found, key=lambda x: x[:3]):     # simplest failing inputs first
-        emitted[sig] = emitted.get(sig, 0) + 1
-        if emitted[sig] > 3:
-            continue
+            found.append((0 if tr['_pin'] else 1, len(tr['_shape']['params']), sum(len(p['toks']) for p in tr['_shape']['params']), i, sig, k, val))
+    bysig = {}
+    for rec in sorted(found, key=lambda x: x[:4]):        # pinned, then simplest failing inputs first
+        bysig.setdefault(rec[4], []).append(rec)
+    for sig, recs in sorted(bysig.items()):
+        _, _, _, i, _, k, val = recs[0]
         tr = traces[i]
         if k is not None:
-            iso = roundtrip('x', {k: val})
-            what = 'encode_command_string(\'x\', %s=%r) = %r decodes to %s%s (full case %s)' % (
-                k, val, iso.get('_enc'), iso.get('_dec'), (' -> ' + iso['_err']) if iso.get('_err') else '', tr['_orig'][:200])
+            ex = []
+            seen = set()
+            for r in recs:
+                if repr(r[6]) in seen or len(ex) >= 6:
+                    continue
+                seen.add(repr(r[6]))
+                iso = roundtrip('x', {r[5]: r[6]})
+                ex.append('%s=%r -> %r -> %s' % (r[5], r[6], iso.get('_enc'),
+                                                 iso.get('_dec') if not iso.get('_err') else iso['_err']))
+            what = '%d cases; original -> encoded -> decoded: %s' % (len(recs), ' | '.join(ex))
         else:
             what = 'encode_command_string%s = %r decodes to %s%s (observed %s)' % (
                 tr['_orig'][:300], tr['_enc'], tr['_dec'], (' -> ' + tr['_err']) if tr['_err'] else '',
                 {x: y for x, y in tr['ev'][-1].items() if x != 'op'})
-        ctx.violation(sig, 'codec does not round-trip: ' + what,
-                      {'half': 'codec', 'shape': tr['_shape'], 'seed': tr['_seed'], 'orig': tr['_orig'],
+        ctx.violation(sig, 'encode_command_string -> decode_command_string does not round-trip: ' + what,
+                      {'half': 'codec', 'shape': tr['_shape'], 'seed': tr['_seed'], 'pin': tr['_pin'], 'orig': tr['_orig'],
                        'param': None if k is None else [k, repr(val)], 'trace': tr['ev']})
     ctx.coverage['codec_rejections_by_signature'] = nviol
 
@@ -949,13 +985,13 @@ def replay(ctx, data):
         for e in tr['ev']:
             print(_short(e))
     else:
-        tr = codec_case((d['shape'], d['seed']))
+        tr = codec_case((d['shape'], d['seed'], d.get('pin')))
         print('original :', tr['_orig'])
         print('encoded  :', repr(tr['_enc']))
         print('decoded  :', tr['_dec'], tr['_err'] or '')
         print('observed :', tr['ev'][-1])
         if d.get('param'):
-            cmd, kw = instantiate(d['shape'], d['seed'])
+            cmd, kw = instantiate(d['shape'], d['seed'], pin=d.get('pin'))
             k = d['param'][0]
             iso = roundtrip('x', {k: kw[k]})
             print('isolated : %s=%r -> %r -> %s %s' % (k, kw[k], iso.get('_enc'), iso.get('_dec'), iso.get('_err') or ''))
